@@ -68,6 +68,9 @@ type FuncCtx struct {
 	specHdr  []string
 	ghostDecl map[string]bool
 	assumptions []string
+	// calls to functions without any contract (see VerifyFunc)
+	sawUnknownCall bool
+	preRegistered  bool
 	curLoopPre *State
 	nRet     int
 	skip     map[string]bool
@@ -134,6 +137,9 @@ func (fc *FuncCtx) oblige(name, kind, reach, goal string, pos token.Pos, text st
 
 func (fc *FuncCtx) registerComp(key, sort string) {
 	if _, ok := fc.compSort[key]; !ok {
+		if fc.preRegistered && fc.sawUnknownCall && heapLikeKey(key) {
+			panic(unsupported("heap component " + key + " first used after a call to an uncontracted function"))
+		}
 		fc.compSort[key] = sort
 	}
 }
